@@ -48,6 +48,7 @@ import RtoscModel.Proofs.PortsObj
 import RtoscModel.Proofs.PortsExtSandwich
 import RtoscModel.Proofs.PortsExtLoc
 import RtoscModel.Proofs.PortsExtSugar
+import RtoscModel.Proofs.PortsExtEntry
 namespace Rtosc.Ports
 open Rtosc Rtosc.Match Rtosc.Ports.Hash
 
@@ -609,16 +610,64 @@ theorem sugar_obj_handed_down {mk : List Bytes → Option Matcher} (hmk : MkOK m
     rw [e3] at this
     exact this
 
-/-- **recurs_cb_index**: one level of the above, as a statement about the callback itself — on every message
-    that `rtosc_match`es a name `…#N…` (documented form, no type specification) `rBOILS_BEGIN` computes the
-    element the address names for the first `#N`, and that element exists (index < N); for a name without
-    '#' (`rRecurCb` / `rRecurpCb`) no element is computed. -/
-theorem recurs_cb_index {p : Pat} (hnw : nameWf p = true) (hty : p.types = none) {a tags t : Bytes}
-    (hm : matchB p a tags = some t) (ex : Bytes) :
+/-- **callback_own_match**: the tie between the log and the recursion callbacks — with or without location
+    buffer, every callback in the log is the callback of a port of the tree (`PPorts.portAt`) whose own name
+    admits the message *at the message pointer the callback is handed*: `msg` points at an address `a'` with
+    `Admits p a' tags` (in particular `PathSpec p a'`).  `rBOILS_BEGIN` inside `rRecursCb` / `rRecurspCb` works on
+    exactly these two inputs (`msg` and `data.port->name`, `port_pointer_own`): `recurs_cb_index` applies to
+    every invocation. -/
+theorem callback_own_match {mk : List Bytes → Option Matcher} (hmk : MkOK mk) {P : PPorts} {addr tags rest : Bytes}
+    (h : InScope P addr tags rest) (k : Nat) (base : Bool) (d : RtData) (hd : d.Usable) :
+    ∃ log d', dispatch mk P.render (msgBuf addr tags k rest) d base = some (log, d') ∧
+      ∀ c ∈ log, ∀ q, c.who = .port q →
+        ∃ p a', P.portAt q = some p ∧ c.m = a' ++ 0 :: msgTail k tags rest ∧ Admits p a' tags := by
+  have hno : ∀ dn : RtData, dn.loc = none →
+      ∃ log d', dispatch mk P.render (msgBuf addr tags k rest) dn base = some (log, d') ∧
+        ∀ c ∈ log, ∀ q, c.who = .port q →
+          ∃ p a', P.portAt q = some p ∧ c.m = a' ++ 0 :: msgTail k tags rest ∧ Admits p a' tags := by
+    intro dn hdn
+    obtain ⟨log, d', hdisp, hlog, hd'⟩ := some_pair (dispatch_noLoc mk h.wf k h.msgOK base dn hdn)
+    refine ⟨log, d', hdisp, ?_⟩
+    subst hlog hd'
+    intro c hc q hq
+    have hmem : c ∈ (semNo P.tab [] 0 dn.obj (rootAddr base addr) tags (msgTail k tags rest)
+        (rootDataNo base dn) false).1 := by
+      simp only [finNo] at hc
+      split at hc
+      · rcases List.mem_append.mp hc with hc | hc
+        · exact hc
+        · simp only [List.mem_singleton] at hc
+          subst hc
+          simp [dfltCallOf] at hq
+      · exact hc
+    obtain ⟨j, s, p, a', h1, _, h3, h4, h5⟩ := semNo_entry P.tab h.wf _ _ _ _ _ _ _ _ c hmem q hq
+    exact ⟨p, a', by rw [h1]; exact h3, h4, h5⟩
+  rcases hd with hd | ⟨L0, hd, hsz⟩
+  · exact hno d hd
+  · have hr : TwoRuns d { d with loc := none } L0 := ⟨hd, hsz, rfl, rfl, rfl⟩
+    obtain ⟨logL, dL', logN, dN', h1, h2, hv⟩ := loc_independent hmk h k base hr
+    obtain ⟨logN', dN'', h3, h4⟩ := hno { d with loc := none } rfl
+    rw [h2] at h3
+    cases h3
+    refine ⟨logL, dL', h1, fun c hc q hq => ?_⟩
+    have hcv : c.view ∈ views logN := by rw [← hv]; exact List.mem_map.mpr ⟨c, hc, rfl⟩
+    obtain ⟨c', hc', hcc⟩ := List.mem_map.mp hcv
+    have e1 : c'.who = c.who := congrArg View.who hcc
+    have e2 : c'.m = c.m := congrArg View.m hcc
+    have := h4 c' hc' q (by rw [e1]; exact hq)
+    rw [e2] at this
+    exact this
+
+/-- **recurs_cb_index**: one invocation of a recursion callback — on every message pointer at an address that
+    spells a name `…#N…/` (`PathSpec`; name of the documented form, no type specification) `rBOILS_BEGIN`
+    computes the element the address names for the name's first `#N`, and that element exists (index < N: no
+    access outside `obj->name[N]`); for a name without '#' (`rRecurCb` / `rRecurpCb`) no element is computed. -/
+theorem recurs_cb_index {p : Pat} (hnw : nameWf p = true) (hty : p.types = none) {a : Bytes}
+    (hps : PathSpec p a) (ex : Bytes) :
     (if hasChar 35 p.render then (Sugar.recursIdx p.render (a ++ 0 :: ex)).map some else some none) =
       some ((spelledElem p.segs a).map (·.1)) ∧
     ∀ v n, spelledElem p.segs a = some (v, n) → v < n :=
-  recursIdx_of_match hnw hty hm ex
+  recursIdx_of_pathSpec hnw hty hps ex
 
 /-- the message pointer the root table sees, as the driver computes it for `Sugar.objIdx` on the `R` lines, is
     the one `sugar_obj_handed_down` speaks about -/
@@ -653,6 +702,24 @@ listed alternatives must match (`SpecMatch`), one that does not even extend a li
 the tree: `MustAnswer` — every level on the way certainly matches, and for a default handler certainly no
 port of its table matches; `MayAnswer` — … possibly …; a callback outside `MayAnswer` MUST NOT be invoked.
 This is the form the Python oracle of the correspondence evaluates on the implementation's output. -/
+
+/-- **matcher_between** (one name): `rtosc_match` on a name of the documented form lies between the two sides —
+    it accepts every message that MUST match and only messages that MAY match. -/
+theorem matcher_between {p : Pat} (hp : nameWf p = true) {a tags : Bytes} (k : Nat) (rest : Bytes)
+    (ha : NulFree a) (hb : IdxBounded a) (ht : NulFree tags) :
+    (SpecMatch p a tags → ∃ e, full (p.render ++ [0]) (msgBuf a tags k rest) = some (true, e)) ∧
+    (∀ e, full (p.render ++ [0]) (msgBuf a tags k rest) = some (true, e) → SpecMayMatch p a tags) := by
+  obtain ⟨hp0, hpne, hpna, _⟩ := nameWf_unpack hp
+  obtain ⟨e, he, _⟩ := full_render hp0 hpne hpna k rest ha hb ht
+  have hiff := matchB_iff_admits hp a tags
+  constructor
+  · intro hs
+    have : (matchB p a tags).isSome = true := hiff.mpr ((admits_sandwiched p a tags).1 hs)
+    exact ⟨e, by rw [msgBuf, he, this]⟩
+  · intro e' he'
+    rw [msgBuf, he] at he'
+    simp only [Option.some.injEq, Prod.mk.injEq] at he'
+    exact (admits_sandwiched p a tags).2 (hiff.mp he'.1)
 
 /-- with or without location buffer: the log is `AnswersRoot` (`dispatch_linear_iff` and `dispatch_loc_iff`
     in one statement) -/
@@ -1014,5 +1081,33 @@ example :
     Sugar.objIdx sgTree.render.tab ((mkMsg sgAddr2 [] [0, 0, 0, 0]).drop 1) [0, 1] = some [(0, some 3), (1, none)] ∧
     sgTree.elems (rootAddr true sgAddr2) [0, 1] = some [(0, some (3, 4)), (1, none)] := by
   refine ⟨?_, ?_, ?_, ?_, ?_, ?_⟩ <;> decide +kernel
+
+/-- `recurs_cb_index` on `mids#4/` and the remaining address "mids2/arr01/x": element 2 of 4 -/
+example :
+    PathSpec { segs := [.lit [109, 105, 100, 115], .enum [52]], sub := true, types := none } (sgAddr.drop 1) ∧
+    spelledElem [.lit [109, 105, 100, 115], .enum [52]] (sgAddr.drop 1) = some (2, 4) ∧
+    Sugar.recursIdx [109, 105, 100, 115, 35, 52, 47] (sgAddr.drop 1 ++ [0]) = some 2 :=
+  ⟨⟨[47, 97, 114, 114, 48, 49, 47, 120],
+     SpellsAll.lit [109, 105, 100, 115] (SpellsAll.enum [52] [50] (by decide) (by decide)
+       (by intro c t h; cases h; decide) (by decide) (SpellsAll.nil _)),
+     ⟨_, rfl⟩⟩, by decide, by decide⟩
+
+/-- why `sugarNodes` is a hypothesis of `sugar_obj_handed_down`: the model decides "this sub-tree port has an
+    enumerated recursion callback" by `strchr(name, '#')`.  A sub-tree port `a/:#` (no `#N`, but a '#' in its type
+    specification — no recursion macro generates such a name) would be taken for one: for "/a/x7" with type
+    string "#" `Sugar.objIdx` selects an element (7, the first digit of the message) although the name
+    enumerates nothing. -/
+def shTree : PPorts :=
+  { dflt := false,
+    tab := .node { segs := [.lit [97]], sub := true, types := some [[35]] }
+             (.leaf { segs := [.lit [120, 55]], sub := false, types := none } .nil) false .nil }
+
+example :
+    shTree.tab.WF ∧ shTree.tab.sugarNodes = false ∧
+    (dispatchReal shTree.render (mkMsg [47, 97, 47, 120, 55] [35] [0, 0, 0, 0]) exData true).map
+      (fun r => r.1.map (fun c => (c.who, c.obj))) = some [(.port [0], []), (.port [0, 0], [0])] ∧
+    Sugar.objIdx shTree.render.tab ((mkMsg [47, 97, 47, 120, 55] [35] [0, 0, 0, 0]).drop 1) [0] = some [(0, some 7)] ∧
+    shTree.elems [97, 47, 120, 55] [0] = some [(0, none)] := by
+  refine ⟨by decide, by decide, ?_, ?_, ?_⟩ <;> decide +kernel
 
 end Rtosc.Ports
